@@ -53,6 +53,13 @@ func RunMgmtStorm(k *fw.Case) {
 			defer wg.Done()
 			for n := 0; n < 300 && atomic.LoadInt32(&stop) == 0; n++ {
 				call := genExecCall(rr)
+				if rr.Intn(3) == 0 {
+					// the ...WithSpecifiedEM methods read the exec model that SetExecModel writes
+					call = trace.Call{Method: trace.PoolOnlyMethods[rr.Intn(3)], Pool: true}
+					if call.Method == trace.MPoolEMSel {
+						call.Names = []string{"a", "b", "c"}
+					}
+				}
 				_, lg, data := reqObs()
 				call.Data = data
 				out := t.Invoke(call, lg)
@@ -65,15 +72,15 @@ func RunMgmtStorm(k *fw.Case) {
 	}
 	mr := rand.New(rand.NewSource(r.Int63()))
 	cur := s0.after
-	for i := 0; i < 14; i++ {
-		time.Sleep(time.Duration(100+mr.Intn(400)) * time.Microsecond)
+	for i := 0; i < 36; i++ {
+		time.Sleep(time.Duration(50+mr.Intn(250)) * time.Microsecond)
 		func() {
 			defer func() {
 				if x := recover(); x != nil {
 					k.Count("management_panics", 1)
 				}
 			}()
-			switch mr.Intn(9) {
+			switch mr.Intn(12) {
 			case 0:
 				u := genUpdate(mr, tg, cur, updFull)
 				if apply(p, u) == nil {
@@ -93,7 +100,7 @@ func RunMgmtStorm(k *fw.Case) {
 				p.ClearPoolRules()
 				cur = verState{}
 				k.Count("clears_during_requests", 1)
-			case 5:
+			case 5, 9, 10, 11:
 				p.SetExecModel(1 + mr.Intn(4))
 				k.Count("exec_model_changes_during_requests", 1)
 			case 6:
